@@ -134,4 +134,17 @@ def hitValueOk (valueIsServers : Bool) : Bool := valueIsServers
 def mgetOwnOk (wReturned wOk aOk laterHit laterOk : Bool) (fetchesA1 : Nat) : Bool :=
   wReturned && wOk && aOk && laterHit && laterOk && fetchesA1 == 1
 
+/-! ### a caller that gives up (its context ends) must not leave a dead flight behind (C09) -/
+
+/-- the owner of a fetch returned with its context error (`ownerErr`); every caller that had joined the flight
+    returned (`joinedReturned`); a later read of the command returned in time with the right value -/
+def ctxDeadOk (ownerErr joinedReturned laterReturned laterOk : Bool) : Bool :=
+  ownerErr && joinedReturned && laterReturned && laterOk
+
+/-! ### identity of the per-key entries of MGET / JSON.MGET (C08)
+
+The entry of key `k` of `JSON.MGET … p` is the entry of `JSON.GET k p` and of no other path: the derived command
+of `JSON.MGET … p` equals the derived command of `JSON.GET k q` exactly when `p = q`. -/
+def jsonIdentOk (p q : List UInt8) (equal : Bool) : Bool := equal == decide (p = q)
+
 end Rv.Spec.Cache
